@@ -14,6 +14,7 @@ structure DSt where
   fowner : List (String × String) := []
   rkeys : List String := []
   fkeys : List String := []
+  orig : List (String × Content) := []   -- content first declared for a key ("r:"/"f:" prefixed)
   st : St String String :=
     { recs := fun _ _ => none, files := fun _ _ => none, rconf := fun _ _ => false,
       fph := fun _ _ => .idle, failed := fun _ => false }
@@ -53,9 +54,16 @@ def parseFault (toks : List String) : Option (Fault String String) :=
     | ["stop1"] => some { f with stopAfterPhase1 := true }
     | _ => none) {}
 
+/-- a copy is printed as `orig` when it is identical to what was declared first, else by its digest -/
+def showCopy (d : DSt) (tag k : String) (c : Content) : String :=
+  if d.orig.lookup (tag ++ k) == some c then s!"{k}=orig" else s!"{k}={digest c}"
+
+def addOrig (l : List (String × Content)) (k : String) (c : Content) : List (String × Content) :=
+  if (l.lookup k).isSome then l else (k, c) :: l
+
 def dumpNode (d : DSt) (n : String) : String :=
-  let rs := d.rkeys.filterMap fun k => (d.st.recs n k).map fun c => s!"{k}={digest c}"
-  let fs := d.fkeys.filterMap fun k => (d.st.files n k).map fun c => s!"{k}={digest c}"
+  let rs := d.rkeys.filterMap fun k => (d.st.recs n k).map (showCopy d "r:" k)
+  let fs := d.fkeys.filterMap fun k => (d.st.files n k).map (showCopy d "f:" k)
   s!"{n}[r " ++ " ".intercalate rs ++ " | f " ++ " ".intercalate fs ++ "]"
 
 def stepLine (d : DSt) (line : String) : DSt × String :=
@@ -68,11 +76,11 @@ def stepLine (d : DSt) (line : String) : DSt × String :=
   | "note" :: _ => (d, "ok")
   | ["node", n] => ({ d with nodes := addKey d.nodes n }, "ok")
   | ["rec", n, k, c] => match content? c with
-      | some c => ({ d with rkeys := addKey d.rkeys k,
+      | some c => ({ d with rkeys := addKey d.rkeys k, orig := addOrig d.orig ("r:" ++ k) c,
                             st := { d.st with recs := upd d.st.recs n k (some c) } }, "ok")
       | none => bad
   | ["file", n, k, c] => match content? c with
-      | some c => ({ d with fkeys := addKey d.fkeys k,
+      | some c => ({ d with fkeys := addKey d.fkeys k, orig := addOrig d.orig ("f:" ++ k) c,
                             st := { d.st with files := upd d.st.files n k (some c) } }, "ok")
       | none => bad
   | ["rowner", k, n] => ({ d with rowner := setAssoc d.rowner k n }, "ok")
